@@ -109,7 +109,9 @@ type world struct {
 	cancelSeq    uint64
 	ctx          simrt.Context
 	lane         *tasklane.TaskLane
-	waitReturned bool
+	waitReturned bool // some Wait() has returned
+	nWaiters     int  // concurrent callers of Wait()
+	waitsBack    int
 	waitSeq      uint64
 	raised       []any
 	gatePanics   int
@@ -251,7 +253,9 @@ func (w *world) sample() any {
 
 func (w *world) main() {
 	ch := simrt.Choose
-	w.lanes = []int{1, 2, 3, 4, 6}[ch("cfg.lanes", 5)]
+	// one configuration in twelve has more lanes than a machine word of either size has
+	// bits in its lower half (whatever is kept per lane in a bit set or a small table)
+	w.lanes = []int{1, 2, 3, 4, 6, 1, 2, 3, 4, 6, 5, 34}[ch("cfg.lanes", 12)]
 	w.qsize = []int{0, 1, 2, 3, 5}[ch("cfg.qsize", 5)]
 	// 0 and negative: a push that cannot wait at all (time.After fires at once)
 	w.timeout = []time.Duration{time.Millisecond, 10 * time.Millisecond, time.Second, 0, -time.Second}[ch("cfg.timeout", 5)]
@@ -263,6 +267,11 @@ func (w *world) main() {
 	perProd := ch("cfg.tasks", 6)
 	policy := ch("cfg.policy", 4)
 	pinned := ch("cfg.pinned", w.lanes+1)
+	if w.lanes > 8 {
+		simrt.Probe("many_lanes")
+		pinned = []int{w.lanes, 0, w.lanes - 1, w.lanes}[pinned%4]
+	}
+	w.nWaiters = 1 + ch("cfg.waiters", 3)
 	pollers := ch("cfg.pollers", 3)
 	waiterEarly := ch("cfg.waiter_early", 2) == 1
 	cancelFirst := ch("cfg.cancel_before_gates", 2) == 1
@@ -508,8 +517,8 @@ func (w *world) main() {
 		w.startWaiter()
 	}
 	simrt.Settle()
-	if !w.waitReturned {
-		w.violate("C07", "wait-did-not-return", fmt.Sprintf("Wait() has not returned although every started task has returned (running=%d, pending accepted=%d)", w.running, w.pendingAccepted()), "wait-did-not-return")
+	if w.waitsBack != w.nWaiters {
+		w.violate("C07", "wait-did-not-return", fmt.Sprintf("%d of %d concurrent Wait() calls have not returned although every started task has returned (running=%d, pending accepted=%d)", w.nWaiters-w.waitsBack, w.nWaiters, w.running, w.pendingAccepted()), "wait-did-not-return")
 	}
 	for _, ti := range simrt.Tasks() {
 		if strings.HasPrefix(ti.Site, "tasklane/") && !ti.Done {
@@ -558,14 +567,23 @@ func (w *world) crashPointProbes() {
 }
 
 func (w *world) startWaiter() {
-	simrt.GoNamed("waiter", "harness", func() {
-		w.lane.Wait()
-		w.waitSeq = simrt.Note("wait-returned", "")
-		w.waitReturned = true
-		if w.running != 0 {
-			w.violate("C07", "wait-before-tasks-returned", fmt.Sprintf("Wait() returned while %d started tasks were still running", w.running), "wait-before-tasks-returned")
-		}
-	})
+	if w.nWaiters > 1 {
+		simrt.Probe("concurrent_waiters")
+	}
+	for i := 0; i < w.nWaiters; i++ {
+		simrt.GoNamed(fmt.Sprint("waiter", i), "harness", func() {
+			w.lane.Wait()
+			seq := simrt.Note("wait-returned", "")
+			if !w.waitReturned {
+				w.waitSeq = seq
+			}
+			w.waitReturned = true
+			w.waitsBack++
+			if w.running != 0 {
+				w.violate("C07", "wait-before-tasks-returned", fmt.Sprintf("Wait() returned while %d started tasks were still running", w.running), "wait-before-tasks-returned")
+			}
+		})
+	}
 }
 
 // samePanic compares two panic values; values of uncomparable type (slices,
